@@ -44,6 +44,8 @@ import (
 
 	"cosmossdk.io/math"
 
+	sdked25519 "github.com/cosmos/cosmos-sdk/crypto/keys/ed25519"
+
 	sdk "github.com/cosmos/cosmos-sdk/types"
 	banktypes "github.com/cosmos/cosmos-sdk/x/bank/types"
 	stakingtypes "github.com/cosmos/cosmos-sdk/x/staking/types"
@@ -197,7 +199,14 @@ func (h *Hist) Exec(op string) *BlockResult {
 		for _, p := range h.pending {
 			txs = append(txs, p.bytes)
 		}
-		br := c.NextBlock(BlockOpts{Dt: time.Duration(ms) * time.Millisecond, Txs: txs})
+		bo := BlockOpts{Dt: time.Duration(ms) * time.Millisecond, Txs: txs}
+		if len(f) > 2 && strings.HasPrefix(f[2], "abs=") { // blk <ms> abs=v0,v2: these validators do not vote
+			bo.Absent = map[string]bool{}
+			for _, n := range strings.Split(f[2][4:], ",") {
+				bo.Absent[n] = true
+			}
+		}
+		br := c.NextBlock(bo)
 		pend := h.pending
 		h.pending = nil
 		h.afterBlock(&br, pend)
@@ -253,6 +262,29 @@ func (h *Hist) Exec(op string) *BlockResult {
 	case "del":
 		a := h.acct(f[1])
 		h.queue(op, "del", a, 600000, nil, &stakingtypes.MsgDelegate{DelegatorAddress: a.Addr.String(), ValidatorAddress: h.val(f[2]).ValAddr.String(), Amount: coin(f[3])})
+	case "mkval": // mkval <acct> <amount>: the account creates a validator (consensus key + vote-extension handler registered with the harness)
+		a := h.acct(f[1])
+		var v *Val
+		for _, x := range c.Vals {
+			if x.Acct == a {
+				v = x
+			}
+		}
+		if v == nil {
+			nv, err := c.NewValKeys(a, len(c.Vals))
+			if err != nil {
+				h.Out = append(h.Out, "mkval err "+err.Error())
+				return nil
+			}
+			v = nv
+		}
+		msg, err := stakingtypes.NewMsgCreateValidator(v.ValAddr.String(), &sdked25519.PubKey{Key: v.Cons.PubKey().Bytes()}, coin(f[2]),
+			stakingtypes.Description{Moniker: a.Name}, stakingtypes.NewCommissionRates(math.LegacyZeroDec(), math.LegacyOneDec(), math.LegacyOneDec()), math.OneInt())
+		if err != nil {
+			h.Out = append(h.Out, "mkval err "+err.Error())
+			return nil
+		}
+		h.queue(op, "mkval", a, 800000, nil, msg)
 	case "undel":
 		a := h.acct(f[1])
 		h.queue(op, "undel", a, 600000, nil, &stakingtypes.MsgUndelegate{DelegatorAddress: a.Addr.String(), ValidatorAddress: h.val(f[2]).ValAddr.String(), Amount: coin(f[3])})
